@@ -129,6 +129,8 @@ class PandasIndexFeaturesMixin:
                     value = 0
                 elif np.issubdtype(dtype, str):
                     value = ''
+                elif np.issubdtype(dtype, np.bytes_):
+                    value = b''
 
             reindexed[name] = (
                 Series(copy_.deepcopy(self[name]), index=self.span)
